@@ -26,7 +26,7 @@ func init() { register(c13{}) }
 func (c13) ID() string    { return "C13" }
 func (c13) Level() string { return "exploration" }
 func (c13) Rule() string {
-	return "race-detector build: for packets of every type (rich ones: CONNECT with will and many properties, PUBLISH with all properties, SUBSCRIBE with identifier and several filters, ...) N in {2,8,32} goroutines are released together and each performs a random sequence of WriteTo, String, Dump, WellFormed and full accessor sweeps on the SHARED packet, with no synchronisation between release and join (no atomics, channels or locks), random runtime.Gosched() in the harness and GOMAXPROCS in {2,4,16}; the will *Publish is also used directly while the CONNECT holding it is encoded; ReadPacket on distinct streams, NewX() constructors and decodes run alongside (shared package-level data). Verdict: zero 'WARNING: DATA RACE' blocks in the GORACE log; every concurrent WriteTo equals the sequential encoding. distinct = (packet type, operation a, operation b) pairs whose execution intervals overlapped on the same packet (computed after the join from goroutine-local timestamp logs); non-trivial = every such pair"
+	return "race-detector build: for packets of every type (rich ones: CONNECT with will and many properties, PUBLISH with all properties, SUBSCRIBE with identifier and several filters, ...) N in {2,8,32} goroutines are released together and each performs a random sequence of WriteTo, String, Dump, WellFormed and full accessor sweeps on the SHARED packet, with no synchronisation between release and join (no atomics, channels or locks), random runtime.Gosched() in the harness and GOMAXPROCS in {2,4,16}; the will *Publish is also used directly while the CONNECT holding it is encoded; ReadPacket on distinct streams (complete ones, whose result is compared with the sequential one, and ones cut inside a packet), NewX() constructors and decodes run alongside (shared package-level data). Verdict: zero 'WARNING: DATA RACE' blocks in the GORACE log; every concurrent WriteTo equals the sequential encoding. distinct = (packet type, operation a, operation b) pairs whose execution intervals overlapped on the same packet (computed after the join from goroutine-local timestamp logs); non-trivial = every such pair"
 }
 func (c13) Assumptions() []string {
 	return []string{"the race detector is a happens-before detector with bounded shadow history: silence on the runs made is evidence, not proof", "the harness adds no happens-before edges between release and join (goroutine-local logs, merged after the join)"}
@@ -39,7 +39,7 @@ func (c13) Phases(env run.Env) []run.Phase {
 	return []run.Phase{{Name: "shared-packet", Race: true, N: 320}}
 }
 
-var c13OpNames = []string{"WriteTo", "String", "Dump", "WellFormed", "accessors", "will.WriteTo", "will.String", "ReadPacket", "New+decode"}
+var c13OpNames = []string{"WriteTo", "String", "Dump", "WellFormed", "accessors", "will.WriteTo", "will.String", "ReadPacket", "New+decode", "ReadPacket(truncated stream)"}
 
 type opLog struct {
 	op         int
@@ -104,6 +104,20 @@ func (c13) Run(c *run.Ctx, phase, idx int) {
 	for i := 0; i < 3; i++ {
 		f, _ := ref.Encode(gen.Random(r, wfDomain))
 		frames = append(frames, f)
+	}
+	// what each frame decodes to when nothing else is going on
+	wantStr := make([]string, len(frames))
+	for i, f := range frames {
+		if res := libRead(f); res.Accepted() {
+			wantStr[i] = res.Pkt.String()
+		}
+	}
+	// connections that broke in the middle of a packet, before the concurrent part
+	for i := 0; i < 3; i++ {
+		f := frames[r.Intn(len(frames))]
+		if len(f) > 3 {
+			libRead(f[:2+r.Intn(len(f)-2)])
+		}
 	}
 
 	N := gen.Pick(r, 2, 8, 32)
@@ -182,9 +196,19 @@ func (c13) Run(c *run.Ctx, phase, idx int) {
 						_ = will.String()
 						_ = will.WellFormed()
 					case 7:
-						p, err := mq.ReadPacket(bytes.NewReader(frames[(g+k)%len(frames)]))
+						fi := (g + k) % len(frames)
+						p, err := mq.ReadPacket(bytes.NewReader(frames[fi]))
 						if err == nil {
-							_ = p.String()
+							if got := p.String(); wantStr[fi] != "" && got != wantStr[fi] {
+								bad[g] = "ReadPacket on a goroutine-local stream returned " + got + ", sequentially the frame reads " + wantStr[fi]
+							}
+						} else if wantStr[fi] != "" {
+							bad[g] = "ReadPacket on a goroutine-local stream failed (" + err.Error() + ") for a frame that reads fine sequentially"
+						}
+					case 9:
+						f := frames[(g+k)%len(frames)]
+						if len(f) > 3 {
+							mq.ReadPacket(bytes.NewReader(f[:len(f)-1-(g+k)%(len(f)-2)]))
 						}
 					case 8:
 						p := bind.New(1 + (g+k)%15)
